@@ -984,8 +984,8 @@ def _sanity_c15():
                     SC = _scopes(0, *S, n)
                     logs = []
                     for engine, workers in (("seq", 1), ("real", 1), ("real", 2)):
-                        W._caching.run_function_on_graph = W.seq_engine if engine == "seq" else rfg.run_function_on_graph
-                        W._rp.run_function_on_graph = W.seq_engine if engine == "seq" else rfg.run_function_on_graph
+                        W._caching.run_function_on_graph = W.seq_engine if engine == "seq" else getattr(rfg, "_verif_real_engine", rfg.run_function_on_graph)
+                        W._rp.run_function_on_graph = W.seq_engine if engine == "seq" else getattr(rfg, "_verif_real_engine", rfg.run_function_on_graph)
                         w = W.World(W.NOW)
                         b = build_scoped(sh, w, list(P), list(TT), SC)
                         rec, so = Rec(), StateObs()
